@@ -1,62 +1,10 @@
 (* C11 — in-place writes after consolidate() go through the storage: the snapshot follows them, for every history of writes *)
 From Coq Require Import ZArith List Bool Arith Lia String.
 Import ListNotations.
-From TD Require Import Model.C11_Layout Model.C11_Tree Proofs.C11_LayoutP Proofs.C11_TreeP.
+From TD Require Import Model.C11_Layout Model.C11_Tree Proofs.C11_LayoutP Proofs.C11_TreeP Proofs.C11_AuxP Proofs.C11_PickleP.
 Open Scope nat_scope.
 
 Definition is_write (o : op) : bool := match o with OWrite _ _ _ => true | _ => false end.
-
-(* ------------------------------------------------------------------ the shape of a tree: everything but bytes and view flags *)
-Definition shape_leaf (l : leaf) : leaf := {| l_dt := l_dt l; l_esz := l_esz l; l_shape := l_shape l; l_bytes := [] |}.
-Fixpoint shape_t (t : tree) : tree := match t with Node m f => Node m (shape_f f) end
-with shape_f (f : forest) : forest :=
-  match f with
-  | FNil => FNil
-  | FLeaf k l _ r => FLeaf k (shape_leaf l) None (shape_f r)
-  | FNonT k p bs r => FNonT k p bs (shape_f r)
-  | FSub k t r => FSub k (shape_t t) (shape_f r)
-  end.
-
-Lemma shape_specs :
-  (forall t, lspecs (flat (shape_t t)) = lspecs (flat t)) /\ (forall f, lspecs (flat_f (shape_f f)) = lspecs (flat_f f)).
-Proof.
-  unfold lspecs. apply tree_forest_ind; cbn [shape_t shape_f flat flat_f map].
-  - intros m f H. exact H.
-  - reflexivity.
-  - intros k l v r H. change (spec_of (shape_leaf l)) with (spec_of l). now rewrite H.
-  - intros k p bs r H. exact H.
-  - intros k t H r H0. now rewrite !map_app, H, H0.
-Qed.
-
-Lemma shape_meta A np :
-  (forall t s, meta_t A np (shape_t t) s = meta_t A np t s) /\ (forall f s, meta_f A np (shape_f f) s = meta_f A np f s).
-Proof.
-  apply tree_forest_ind; cbn [shape_t shape_f meta_t meta_f].
-  - intros m f IH s. now rewrite IH.
-  - reflexivity.
-  - intros k l v r IH s. change (spec_of (shape_leaf l)) with (spec_of l). rewrite IH. reflexivity.
-  - intros k p bs r IH s. now rewrite IH.
-  - intros k t IHt r IHr s. rewrite IHt. destruct (meta_t A np t s) as [mt mid]. now rewrite IHr.
-Qed.
-
-Lemma shape_flags :
-  (forall t, no_reserved_t (shape_t t) = no_reserved_t t /\ unlocked_t (shape_t t) = unlocked_t t) /\
-  (forall f, no_reserved_f (shape_f f) = no_reserved_f f /\ unlocked_f (shape_f f) = unlocked_f f).
-Proof.
-  apply tree_forest_ind; cbn [shape_t shape_f no_reserved_t no_reserved_f unlocked_t unlocked_f].
-  - intros m f [H1 H2]. now rewrite H1, H2.
-  - auto.
-  - intros k l v r [H1 H2]. auto.
-  - intros k p bs r [H1 H2]. auto.
-  - intros k t [H1 H2] r [H3 H4]. now rewrite H1, H2, H3, H4.
-Qed.
-
-Lemma sizes_ok_specs A np a b : lspecs a = lspecs b -> sizes_ok A np a = sizes_ok A np b.
-Proof.
-  unfold sizes_ok, lspecs. revert b. induction a as [|x a IH]; intros [|y b] H; cbn [map forallb] in *; try discriminate; [reflexivity|].
-  injection H as He Hs Ht. rewrite (IH b Ht).
-  unfold flat_size, nbytes, spec_of. cbn [sp_esz sp_shape]. now rewrite He, Hs.
-Qed.
 
 Section Write.
 Variables (A : nat) (np : bool).
@@ -162,7 +110,7 @@ Proof.
     destruct (write_leaf_W f pre post f' w' Hpre Hwf Ef) as (f2 & E1 & E2 & E3 & s & E4 & E5).
     exists (Node m f2). cbn [W_t shape_t flat]. rewrite E1, E2. repeat split; try assumption. exists s. auto.
   - destruct (at_path_f _ k0 _) as [[f' w']|] eqn:Ef; [|discriminate]. injection Hw as <- <-.
-    cbn [out_meta m_locked] in Ef. set (anc' := anc || false) in Ef. clearbody anc'.
+    set (anc' := anc || m_locked (out_meta false m)) in Ef. clearbody anc'.
     assert (Hf : exists f2, f' = W_f f2 (total_of pre) /\ shape_f f2 = shape_f f /\ Forall wf_leaf (flat_f f2) /\
               exists s, w' = Some s /\ splice (encode A np (pre ++ flat_f f ++ post)) s b = encode A np (pre ++ flat_f f2 ++ post)).
     { clear m. revert pre post f' w' Hpre Hwf Ef.
@@ -206,73 +154,43 @@ Qed.
 End Write.
 
 (* ------------------------------------------------------------------ the invariant of a consolidated object under writes *)
-Definition consolidated_as (A : nat) (np : bool) (t : tree) (st : cstate) : Prop :=
-  tree_side A np t /\ cur st = W_t A np t 0 /\
-  snap st = Some {| sn_meta := fst (meta_t A np t 0); sn_storage := encode A np (flat t) |}.
+Lemma W_mark t s : W_t AU true t s = fst (mark_t AU true t s).
+Proof. rewrite (proj1 (W_eq AU true)). apply (proj1 outmeta_id). Qed.
 
-Lemma tree_side_shape A np t t2 : shape_t t2 = shape_t t -> Forall wf_leaf (flat t2) -> tree_side A np t -> tree_side A np t2.
-Proof.
-  intros Hs Hwf (H1 & H2 & H3 & H4).
-  assert (Hsp : lspecs (flat t2) = lspecs (flat t)) by (rewrite <- (proj1 shape_specs t2), <- (proj1 shape_specs t), Hs; reflexivity).
-  repeat split.
-  - clear - Hwf. revert Hwf. generalize t2. clear t2.
-    assert (H : (forall t, Forall wf_leaf (flat t) -> wf_t t = true) /\ (forall f, Forall wf_leaf (flat_f f) -> wf_f f = true)).
-    { apply tree_forest_ind; cbn [flat flat_f wf_t wf_f]; intros; auto.
-      - apply Forall_cons_iff in H0 as [Ha Hb]. rewrite (proj2 (wf_leafb_iff l) Ha). cbn. auto.
-      - apply Forall_app in H1 as [Ha Hb]. rewrite (H Ha), (H0 Hb). reflexivity. }
-    apply H.
-  - rewrite <- (proj1 (proj1 shape_flags t2)), Hs, (proj1 (proj1 shape_flags t)). exact H2.
-  - rewrite (sizes_ok_specs A np _ _ Hsp). exact H3.
-  - rewrite Hsp. exact H4.
-Qed.
-
-Lemma step_write A np t st o : is_write o = true -> consolidated_as A np t st ->
-  exists t2, consolidated_as A np t2 (fst (step st o)) /\ unlocked_t t2 = unlocked_t t.
+Lemma step_write t st o : is_write o = true -> consolidated_as t st ->
+  exists t2, consolidated_as t2 (fst (step st o)) /\ shape_t t2 = shape_t t.
 Proof.
   intros Ho (Hs & Hc & Hn). destruct o as [| path k b | | | | | | |]; try discriminate.
   unfold step. change (step_tree (cur st) (OWrite path k b)) with (at_path path (G k b) false (cur st)).
   destruct (at_path path (G k b) false (cur st)) as [[c' w]|] eqn:E.
-  - rewrite Hc in E. change 0 with (total_of A np []) in E.
-    destruct (at_path_W A np k b path t [] [] false c' w (Forall_nil _) (proj1 wf_flat t (proj1 Hs)) E)
+  - rewrite Hc, <- W_mark in E. change 0 with (total_of AU true []) in E.
+    destruct (at_path_W AU true k b path t [] [] false c' w (Forall_nil _) (proj1 wf_flat t (proj1 Hs)) E)
       as (t2 & E1 & E2 & E3 & s & E4 & E5).
     cbn [app] in E5. rewrite !app_nil_r in E5.
-    exists t2. split.
-    + split; [now apply (tree_side_shape A np t t2)|]. cbn [fst cur snap]. split; [exact E1|].
-      rewrite Hn, E4. cbn [sn_meta sn_storage]. rewrite E5.
-      rewrite <- (proj1 (shape_meta A np) t2), E2, (proj1 (shape_meta A np) t). reflexivity.
-    + rewrite <- (proj2 (proj1 shape_flags t2)), E2, (proj2 (proj1 shape_flags t)). reflexivity.
+    exists t2. split; [|exact E2].
+    split; [now apply (tree_side_shape AU true t t2)|]. cbn [fst cur snap]. split; [rewrite E1; apply W_mark|].
+    rewrite Hn, E4. cbn [sn_meta sn_storage]. rewrite E5, (meta_of_shape AU true t t2 0 E2). reflexivity.
   - exists t. cbn [fst]. split; [split; [exact Hs|split; assumption]|reflexivity].
 Qed.
 
-Lemma run_writes A np : forall ws t st, forallb is_write ws = true -> consolidated_as A np t st ->
-  exists t2, consolidated_as A np t2 (run st ws) /\ unlocked_t t2 = unlocked_t t.
+Lemma run_writes : forall ws t st, forallb is_write ws = true -> consolidated_as t st ->
+  exists t2, consolidated_as t2 (run st ws) /\ shape_t t2 = shape_t t.
 Proof.
   induction ws as [|o r IH]; intros t st Hw Hinv; cbn [run fold_left forallb] in *.
   - exists t. auto.
   - apply andb_true_iff in Hw as [Ho Hr].
-    destruct (step_write A np t st o Ho Hinv) as (t1 & H1 & U1).
+    destruct (step_write t st o Ho Hinv) as (t1 & H1 & U1).
     destruct (IH t1 _ Hr H1) as (t2 & H2 & U2). exists t2. split; [exact H2|congruence].
 Qed.
 
-Lemma pickle_consolidated_as A np t st : consolidated_as A np t st -> unlocked_t t = true ->
-  pickle_roundtrip st = Ok {| cur := reorder_t (cur st); snap := snap st |}.
-Proof.
-  intros (Hs & Hc & Hn) Hu.
-  assert (Hst : consolidate_tree A np false t = Ok st).
-  { rewrite (consolidate_ok _ _ _ _ Hs). destruct st as [c s]. cbn in *. subst. rewrite (proj1 (W_eq A np)). reflexivity. }
-  exact (pickle_fresh_partial A np t st Hs Hu Hst).
-Qed.
-
 (* consolidate, then any history of in-place writes: pickling gives the tensordict as it is *)
-Theorem pickle_inplace_history A np t st0 ws : tree_side A np t -> unlocked_t t = true ->
-  consolidate_tree A np false t = Ok st0 -> forallb is_write ws = true ->
+Theorem pickle_inplace_history t st0 ws : tree_side AU true t -> lock_closed_t t = true ->
+  consolidate_tree AU true false t = Ok st0 -> forallb is_write ws = true ->
   let st := run st0 ws in
   pickle_roundtrip st = Ok {| cur := reorder_t (cur st); snap := snap st |}.
 Proof.
-  intros Hs Hu Hc Hw st.
-  assert (Hinv : consolidated_as A np t st0).
-  { rewrite (consolidate_ok _ _ _ _ Hs) in Hc. injection Hc as <-. split; [exact Hs|]. cbn [cur snap].
-    split; [now rewrite (proj1 (W_eq A np))|reflexivity]. }
-  destruct (run_writes A np ws t st0 Hw Hinv) as (t2 & H2 & U2).
-  apply (pickle_consolidated_as A np t2); [exact H2|congruence].
+  intros Hs Hl Hc Hw st.
+  assert (Hinv : consolidated_as t st0) by now apply consolidate_mem.
+  destruct (run_writes ws t st0 Hw Hinv) as (t2 & H2 & U2).
+  apply (pickle_consolidated_as t2); [exact H2|]. now rewrite (lock_closed_of_shape t t2 U2).
 Qed.
